@@ -112,7 +112,8 @@ class Walker(object):
             The sampled object.
         """
         choice_from_table = random.choice(self._table)
-        if random.uniform(0.0, self._mean_rate) <= choice_from_table[0].rate:
+        # An item with a vanishing rate must never be sampled, even if the random number is exactly 0.0.
+        if random.uniform(0.0, self._mean_rate) <= choice_from_table[0].rate and choice_from_table[0].rate > 0.0:
             return choice_from_table[0].item
         else:
             return choice_from_table[1].item
